@@ -10,7 +10,7 @@ from . import C01, C02, C03, C06
 PROPERTY = "C12"
 LEVEL = "exploration"
 TIMEOUT = 600
-BUDGET = {"quick": 600, "thorough": 3000}
+BUDGET = {"quick": 600, "thorough": 3600}
 RULE = ("Pairs (and triples) of generated programs P, Q with disjoint variable / memory / entity names but "
         "deliberately overlapping explicit signal types and constants, user entities in separate tile ranges, are "
         "compiled alone and together (statements interleaved in three random order-preserving ways) by the real "
